@@ -491,6 +491,7 @@ partial def loop (h : IO.FS.Stream) (s : DS) : IO Unit := do
       if k == "p" then plain "RF" (.readFrom .plain data)
       else if k == "f" then plain "RF" (.readFrom .file data)
       else if k == "l" then plain "RF" (.readFrom .limited data)
+      else if k == "m" then plain "RF" (.readFrom .limitedMem data)
       else IO.println "bad-op"; loop h s
     | _, _, _ => IO.println "bad-op"; loop h s
   | ["F"] =>
